@@ -1,1 +1,48 @@
 // Kani contract harnesses for /repo/arrow-array/src/temporal_conversions.rs (child module: sees private items via super::)
+use super::*;
+
+// Contract (C13, temporal unit conversions: "representable values are preserved exactly"): for EVERY v: i64
+// (negative values included) and base in {10^3, 10^6, 10^9} (one harness per base: the divisor is a
+// constant), split_second(v, base) == (q, r) with
+//     q * base + r == v   (mathematical integers, i128)      and      0 <= r < base      (euclidean),
+// so the pair recombines to the input and the sub-second part is never negative; no overflow, no panic.
+// The chrono-based functions of this file (DateTime::from_timestamp, NaiveTime, Duration) are not covered.
+macro_rules! split_unit {
+    ($name:ident, $base:expr) => {
+        #[kani::proof]
+        fn $name() {
+            let v: i64 = kani::any();
+            let (q, r) = split_second(v, $base);
+            assert!((q as i128) * ($base as i128) + (r as i128) == v as i128);
+            assert!((r as i64) < $base);
+            kani::cover!(v < 0 && r > 0);
+            kani::cover!(v < 0 && r == 0 && q < 0);
+            kani::cover!(v == i64::MIN);
+            kani::cover!(v == i64::MAX);
+        }
+    };
+}
+// measured 1183 s at machine load ~70 (64-bit division by a constant): thorough
+// @unit name=split_second_millis props=C13 kind=complete fns=split_second timeout=1500 mem=3 tier=thorough
+split_unit!(split_second_millis, MILLISECONDS);
+// NOT CONFIRMED under load (never seen to finish on the shared machine, load 40-75): keep tier=thorough until re-measured
+// @unit name=split_second_micros props=C13 kind=complete fns=split_second timeout=1500 mem=3 tier=thorough
+split_unit!(split_second_micros, MICROSECONDS);
+// NOT CONFIRMED under load (never seen to finish on the shared machine, load 40-75): keep tier=thorough until re-measured
+// @unit name=split_second_nanos props=C13 kind=complete fns=split_second timeout=1500 mem=3 tier=thorough
+split_unit!(split_second_nanos, NANOSECONDS);
+
+// Contract (C13): the unit constants are the exact ratios the casts multiply / divide by, and the
+// day-based ones are exact products (no truncation): date32 -> date64 multiplies by 86_400_000.
+// @unit name=temporal_constants props=C13 kind=complete fns=SECONDS_IN_DAY,MILLISECONDS_IN_DAY,MICROSECONDS_IN_DAY,NANOSECONDS_IN_DAY timeout=60
+#[kani::proof]
+fn temporal_constants() {
+    assert!(MILLISECONDS == 1_000 && MICROSECONDS == 1_000_000 && NANOSECONDS == 1_000_000_000);
+    assert!(SECONDS_IN_DAY == 24 * 60 * 60);
+    assert!(MILLISECONDS_IN_DAY == 86_400_000 && MICROSECONDS_IN_DAY == 86_400_000_000 && NANOSECONDS_IN_DAY == 86_400_000_000_000);
+    // every Date32 value converts to Date64 (milliseconds) without overflow
+    let d: i32 = kani::any();
+    let ms = (d as i128) * (MILLISECONDS_IN_DAY as i128);
+    assert!(ms >= i64::MIN as i128 && ms <= i64::MAX as i128);
+    kani::cover!(d == i32::MIN);
+}
